@@ -200,11 +200,16 @@ fn fresh(dir: &Path, text: &str) -> PathBuf {
 /// run rcomp in a fresh process; returns (success, outputs)
 fn run_cli(dir: &Path, text: &str, flags: &[Flag]) -> Result<(bool, Vec<Option<Vec<u8>>>), String> {
     let g = fresh(dir, text);
+    run_cli_in(dir, &g, flags)
+}
+
+/// the same in a directory as it is (whatever files it already holds)
+fn run_cli_in(dir: &Path, g: &Path, flags: &[Flag]) -> Result<(bool, Vec<Option<Vec<u8>>>), String> {
     let mut cmd = Command::new(rcomp_bin());
     for f in flags {
         cmd.args(f.cli());
     }
-    cmd.arg(&g).current_dir(dir).env_remove("OUT_DIR").env_remove("CARGO_MANIFEST_DIR").env_remove("RUSTEMO_TRACE");
+    cmd.arg(g).current_dir(dir).env_remove("OUT_DIR").env_remove("CARGO_MANIFEST_DIR").env_remove("RUSTEMO_TRACE");
     let out = cmd.output().map_err(|e| format!("cannot run rcomp: {e}"))?;
     if !out.status.success() {
         return Err(format!("rcomp exit status {:?}: {}", out.status.code(), String::from_utf8_lossy(&out.stderr)));
@@ -288,7 +293,7 @@ impl Prop for C17 {
          after a rule of A or B (as written or lower-cased). (i) the same rcomp command line runs in 5 \
          fresh processes (std's per-process hash keys differ) and must write byte-identical <stem>.rs, \
          <stem>_actions.rs and <stem>.dot; (ii) the library API in one process generating [A, B, A] and [B, A] \
-         must write identical bytes for every A; (iii) rcomp <flags> and the API configured through \
+         must write identical bytes for every A; (iv) rcomp --force into a directory pre-seeded with the same files in CRLF / without final newline writes the bytes of a fresh directory; (iii) rcomp <flags> and the API configured through \
          the harness's own flag->setter table must write byte-identical files and agree on \
          success. Flag combinations whose meaning depends on setter order are excluded by \
          construction (counted). non-trivial = case with >= 2 non-default flags or a grammar with a \
@@ -386,6 +391,36 @@ impl Prop for C17 {
                 format!("cli-api|{}|{culprit}", OUT_FILES[i]),
                 ctx(format!("rcomp and the API wrote different {}:\n{d}", OUT_FILES[i])),
             );
+        }
+        // (iv) history on disk: with --force the bytes must not depend on what the output
+        // directory held before (here: the same files with CRLF line ends / without the final
+        // newline)
+        if cli_ok {
+            let mut f2 = flags.clone();
+            if !f2.contains(&Flag::Force) {
+                f2.push(Flag::Force);
+            }
+            if let Ok(reference) = run_cli(&base.join("force_ref"), &ta, &f2) {
+                let dir = base.join("force_crlf");
+                let g = fresh(&dir, &ta);
+                let st_ = stem();
+                for (k, name) in [format!("{st_}.rs"), format!("{st_}_actions.rs")].iter().enumerate() {
+                    if let Some(Some(bytes)) = reference.1.get(k) {
+                        let t = String::from_utf8_lossy(bytes).to_string();
+                        let changed = if case.stem % 4 < 2 { t.replace('\n', "\r\n") } else { t.trim_end_matches('\n').to_string() };
+                        let _ = std::fs::write(dir.join(name), changed);
+                    }
+                }
+                st.sub();
+                if let Ok(again) = run_cli_in(&dir, &g, &f2) {
+                    if let Some((i, d)) = first_diff(&reference.1, &again.1) {
+                        return Outcome::fail(
+                            format!("history|{}", OUT_FILES[i]),
+                            ctx(format!("rcomp --force into a directory that already held the same files with other line ends wrote different {}:\n{d}", OUT_FILES[i])),
+                        );
+                    }
+                }
+            }
         }
         // (ii) processing order within one process
         if cli_ok {
